@@ -60,7 +60,7 @@ def depends_on(f, o, target_id, allocas_written_by=None, depth=0):
         a = f.strip(i.ops[0])
         if a[0] == 'i' and f.insts[a[1]].op == 'alloca':
             for u in f.users.get(a[1], ()):
-                if u.op == 'store' and f.strip(u.ops[1]) == a and f.strip(u.ops[0]) == ['i', target_id]:
+                if u.op == 'store' and f.strip(u.ops[1]) == a and (f.strip(u.ops[0]) == ['i', target_id] or _value_from(f, u.ops[0], target_id)):
                     # the store must reach this load
                     if f.dominates(u, i) or i.id in f.reach([u]):
                         return True
@@ -71,8 +71,21 @@ def depends_on(f, o, target_id, allocas_written_by=None, depth=0):
                 if u.op == 'store' and f.strip(u.ops[0]) == ['i', target_id] and f.expr(u.ops[1]) == e and f.dominates(u, i):
                     return True
         return False
-    if i.op in ('icmp', 'and', 'or', 'xor', 'add', 'sub', 'zext', 'sext', 'trunc', 'select'):
+    if i.op in ('icmp', 'and', 'or', 'xor', 'add', 'sub', 'zext', 'sext', 'trunc', 'select', 'phi'):
         return any(depends_on(f, x, target_id, None, depth + 1) for x in i.ops)
+    return False
+
+
+def _value_from(f, o, target_id, depth=0):
+    """is the stored value the call result merged with other values (`c ? call() : -1` gives a phi / select)?"""
+    o = f.strip(o)
+    if o[0] != 'i' or depth > 4:
+        return False
+    if o[1] == target_id:
+        return True
+    i = f.insts[o[1]]
+    if i.op in ('phi', 'select', 'zext', 'sext', 'trunc'):
+        return any(_value_from(f, x, target_id, depth + 1) for x in i.ops)
     return False
 
 
